@@ -47,6 +47,9 @@ def run(prog, res):
   res.extra['numpy_calls_without_introspectable_signature'] = unres
   res.floor('V5', 20)
   res.floor('V5t', 2)
+  from ..rules import divisors
+  divisors.check(prog, res, [prog.function(q) for q in FUNCS])
+  res.floor('D3', 1)
   ck = prog.function('premade_lib.compute_keypoints')
   _clip_polarity(prog, res, ck)
   _lockstep(prog, res, ck)
